@@ -55,6 +55,42 @@ CHECKS = {
     design_ref='DESIGN.md section 5 "C05", 3.2',
     note='As C01; binding schema restricted to the named forwarding parameters. Prefixes of fast_SIS/fast_nonMarkov_SIS/discrete simulators: binding only.',
     technique='contract-based deductive verification (postconditions, raises clauses, site obligations) + delegation-binding flow analysis'),
+ 'C06': dict(
+    category='other',
+    text='Unbounded: every internal call site of analytic.py binds the wrapper parameters to the callee parameters of the same name (delegation binding) and no '
+         'function loads a never-bound name ("accepted rather than crashing"). Bounded stand-in (labelled bounded): every graph-based entry point is executed '
+         'unmodified on small graphs with symbolic tau/gamma/rho and the odeint contract stub: times == linspace, row 0 == the requested initial state, '
+         'S+I(+R) == N in every row (identically, or because the gradient of the total annihilates the model\'s own right-hand side); each full-data series '
+         'named X starts from the input X0 for the direct models. Compartments within [0,N] and monotone S/R are NOT decided.',
+    design_ref='DESIGN.md section 5 "C06", 3.3',
+    note='odeint contract stub; sympy; bounded in graphs / array shapes / tcount; orthant invariance assumed; level other because the deciding part is bounded.',
+    technique='delegation-binding + definite-assignment flow analyses (all inputs); symbolic execution of the real numpy code against the odeint contract (bounded)'),
+ 'C07': dict(
+    category='other',
+    text='Bounded stand-in: for the SIR hierarchy (EBCM, compact and super-compact pairwise) on a non-regular graph, the pairwise and mean-field families on a '
+         'regular graph (SIS and SIR), and preferential-mixing EBCM with uncorrelated mixing vs EBCM, the exact Lie derivatives of S, I, R at tmin up to order 2 '
+         '(thorough: 3) - computed from the real right-hand sides and initial-condition code with the odeint contract stub - coincide as symbolic expressions in '
+         'tau, gamma, rho. Necessary condition only; effective-degree and node-level models are not covered (right-hand sides not evaluable on exact values).',
+    design_ref='DESIGN.md section 5 "C07"',
+    note='M (cited): semiconjugacy + uniqueness of ODE solutions give equality of whole curves. Bounded in order and graphs.',
+    technique='symbolic execution of the real right-hand sides (sympy Lie derivatives) against the odeint contract (bounded)'),
+ 'C08': dict(
+    category='other',
+    text='Bounded stand-ins: tau=0 gives I\'=-gamma I, I\'\'=gamma^2 I (S constant for SIR models, S=N-I for SIS) from the exact Lie derivatives of every evaluable '
+         'ODE wrapper; gamma=0: SIS and SIR versions have identical Lie derivatives of S up to order 3; EBCM_discrete satisfies R(t+1)=R(t)+I(t) exactly for symbolic '
+         'p, rho; attack rates agree numerically with the long-time limits of EBCM / EBCM_discrete. Exactness of SIR_pair_based on trees is NOT decided by this family.',
+    design_ref='DESIGN.md section 5 "C08"',
+    note='Partial by design: the tree-exactness clause is not decidable by contracts (stated in DESIGN). Bounded in order / graphs / degree distributions.',
+    technique='symbolic execution of the real right-hand sides (sympy) + bounded native numeric comparison for final sizes'),
+ 'C14': dict(
+    category='other',
+    text='Unbounded: opacity analysis - in no function of analytic.py does a name bound by iterating over nodes subscript an array, so node labels are only hashed and '
+         'compared (relabelling commutes with the code up to iteration order). Bounded stand-in: every graph-based ODE entry point is executed on graphs and on '
+         'relabelled / re-ordered copies (string labels, permuted integers, reversed insertion order, explicit nodelist in another order) and S, I, R and their '
+         'time derivatives at tmin are compared exactly; deterministic-rule simulators are compared natively through per-node histories.',
+    design_ref='DESIGN.md section 5 "C14"',
+    note='First-order comparison at tmin; iteration order only affects floating-point rounding (as the property allows).',
+    technique='opacity typing analysis (all inputs) + relational symbolic execution of the real code on relabelled graphs (bounded)'),
  'C11': dict(
     category='proof',
     text='Local semantic contracts of the real handlers and queue, for all states: L1 no lost relaxation, L2 no spurious event (edge, time = infection + delay, '
